@@ -1,8 +1,9 @@
 """C19 - ManageSieve: nothing but CAPABILITY/NOOP/LOGOUT/STARTTLS/AUTHENTICATE
 acts before authentication; afterwards the script store is a name -> bytes map
-with at most one active name, per user.
+with at most one active name, per user.  Dict backend and maildir backend.
 
-Oracle: spec/Sieve.tla (reference model, two users, three connections).
+Oracle: spec/Sieve.tla (reference model, two users, three connections, two
+kinds of script store).
 
 1. TLC checks the model's own properties exhaustively (Sieve_small.cfg, and
    Sieve_medium.cfg in the thorough tier): at most one active, active is
@@ -30,6 +31,38 @@ Oracle: spec/Sieve.tla (reference model, two users, three connections).
 Where the property leaves latitude the model has alternatives (r.alt); the
 alternative the server takes is measured once (calibrate) and the others are
 pruned from the graph / switched off for -simulate.
+
+Two backends, two profiles of the model (Sieve.tla Profile).  Everything above
+is done on the dict backend (Profile "dict": any name can be stored) and, with
+seeds of its own, on the maildir backend (Profile "single":
+pymap.filter.SingleFilterSet - ONE script per user, permanently called
+"active", the file dovecot.sieve in the user's directory; n1 is bound to that
+name for both users, n2 to any other name: the families plus near misses of
+"active" and path-like names).  The property is the same for both; the single
+store only MAY refuse (NO) a name it cannot hold and refuses to deactivate its
+one script - an OK that stores nothing is not allowed.  Every maildir
+execution runs on its own copy of a provisioned store (md_world); the glass
+box there is the file itself, and script bytes found in any other file are
+reported.  The counts per backend are in the evidence (per_backend, maildir).
+
+Deviations.  The behaviours of the tree that contradict the property on the
+single store are NAMED outcomes of the model (Sieve.tla DevTags, r.dev), each
+replacing the outcome the property asks for when it is in Open.  calibrate()
+measures which ones the tree shows; for each of them TLC confirms that the
+model with Open = {d} violates the clause DevClause[d] of the property (a
+failure to do so is a machinery error); the tours follow the as-is model
+(Open = the measured ones).  An execution that walks a deviation edge is a
+VIOLATION under the deviation's name - unless known/C19.json has an OPEN entry
+with that id (KNOWN-FINDING; SingleDeleteActive: deleting the one script is
+the only way to remove it).  The deviations exist in the single profile only,
+so an entry excuses on that store only; every other difference from the model
+is a violation as before.  Each deviation step also carries the outcome the
+property asks for (TLC: the strict graph, _strict_index): a tree that gives
+that one instead ends the execution there (switch), so a replay file of a
+repaired deviation stops reproducing without a false alarm.
+
+Experiments only: VERIF_C19_BACKENDS=dict|maildir restricts the run,
+VERIF_C19_KNOWN=<file> reads the known findings from another file.
 
 Python only concretises abstract commands, parses and abstracts responses and
 compares them with what TLC computed.  Mismatches with a clause of the
@@ -284,6 +317,19 @@ NAME_STRESS = {
     'brace': ('{3}', 'a{12+}b'),
 }
 
+# The maildir backend keeps ONE script per user (pymap.filter.SingleFilterSet over the
+# file dovecot.sieve), permanently called "active": there the model's n1 (the one name
+# the store can hold, Sieve.tla Holdable) is that name and n2 is a name of the family.
+SINGLE_NAME = 'active'
+# more names for n2 on that store: near misses of the one name, names that look like
+# the file or like a path to the other user's file
+NAME_SINGLE = {
+    'nearactive': ('ACTIVE', 'active '),
+    'activeish': ('Active', 'active.sieve'),
+    'pathlike': ('../user2/dovecot.sieve', 'dovecot.sieve'),
+    'pathlike2': ('../user1/active', 'user2/active'),
+}
+
 _S_FILE = (b'require ["fileinto"];\r\n\r\nif header :contains "Subject" "x" {\r\n'
            b'    fileinto "Junk";\r\n}\r\n')
 CONTENT_FAMILIES = {
@@ -368,29 +414,86 @@ class Finding(dict):
 
 
 # --------------------------------------------------------------------------
+# the maildir store: a template (the two users provisioned the way an operator does it,
+# through the backend's Identity.set; no maildir yet - pymap makes it at the first login)
+# is built once per process, every execution runs on its own copy (tmpfs when there is
+# one), removed when the execution ends.
+
+_MD: dict = {}
+
+
+def _md_top() -> str:
+    top = _MD.get('top')
+    if top is None:
+        import atexit
+        import tempfile
+        base = os.environ.get('VERIF_SCRATCH')
+        if not base and os.path.isdir('/dev/shm') and os.access('/dev/shm', os.W_OK):
+            base = '/dev/shm'
+        top = tempfile.mkdtemp(prefix='verif.c19md.', dir=base or None)
+        pid = os.getpid()
+        # (pool workers and Bg children leave through os._exit: only the parent cleans up)
+        atexit.register(lambda: os.getpid() == pid and shutil.rmtree(top, True))
+        _MD['top'] = top
+    return top
+
+
+def md_template() -> str:
+    tpl = _MD.get('tpl')
+    if tpl is None:
+        tpl = os.path.join(_md_top(), 'tpl')
+        w = World('maildir', users={u: p for u, p in USERS.values()},
+                  maildir_dir=os.path.join(tpl, 'base'))
+        w.close()
+        _MD['tpl'] = tpl
+    return tpl
+
+
+def md_world() -> World:
+    import tempfile
+    tpl = md_template()
+    d = tempfile.mkdtemp(prefix='w', dir=_md_top())
+    shutil.copytree(tpl, d, symlinks=True, dirs_exist_ok=True)
+    w = World('maildir', users={u: p for u, p in USERS.values()},
+              maildir_dir=os.path.join(d, 'base'), config_kw={'_provision': False})
+    w._own_dir = d            # removed by World.close()
+    return w
+
+
+# --------------------------------------------------------------------------
 # one real execution
 
 
 class Exec:
 
-    def __init__(self, seed, name_fam=None, cont_fam=None, enc='mixed', force_drop=None):
+    def __init__(self, seed, name_fam=None, cont_fam=None, enc='mixed', force_drop=None,
+                 backend='dict'):
         self.rng = random.Random(seed)
         self.force_drop = force_drop
+        self.backend = backend
         rng = self.rng
-        self.name_fam = name_fam or rng.choice(sorted(NAME_FAMILIES))
+        single = backend == 'maildir'
+        self.name_fam = name_fam or rng.choice(
+            sorted({**NAME_FAMILIES, **NAME_SINGLE} if single else NAME_FAMILIES))
         self.cont_fam = cont_fam or rng.choice(sorted(CONTENT_FAMILIES))
         self.enc_mode = enc
-        nf = {**NAME_FAMILIES, **NAME_STRESS}[self.name_fam]
+        nf = {**NAME_FAMILIES, **NAME_STRESS, **NAME_SINGLE}[self.name_fam]
         cf = {**CONTENT_FAMILIES, **CONTENT_STRESS}[self.cont_fam]
         if rng.random() < 0.5:
             nf = (nf[1], nf[0])
+        if single:
+            # n1 = the one name the store holds, n2 = one of the family's two names
+            nf = (SINGLE_NAME, nf[0] if nf[0] != SINGLE_NAME else nf[1])
         self.names = {'n1': nf[0].encode('utf-8'), 'n2': nf[1].encode('utf-8'),
                       'empty': b''}
         self.conts = {'s1': cf[0], 's2': cf[1], 'bad': cf[2]}
         self.abs_name = {v: k for k, v in self.names.items() if k != 'empty'}
         self.abs_cont = {v: k for k, v in self.conts.items()}
-        self.w = World('dict', demo=False,
-                       users={u: p for u, p in USERS.values()})
+        if single:
+            self.w = md_world()
+        else:
+            self.w = World('dict', demo=False,
+                           users={u: p for u, p in USERS.values()})
         if rng.random() < 0.5:
             # every second execution: what is sent arrives in several segments
             self.w.segment_rng = random.Random(rng.randrange(1 << 30))
@@ -711,6 +814,15 @@ class Exec:
 
     def glass(self):
         out = {}
+        if self.backend == 'maildir':
+            # the script of a user is the file dovecot.sieve in the user's directory
+            for u, (user, _pw) in USERS.items():
+                try:
+                    with open(os.path.join(self.w.base_dir, user, 'dovecot.sieve'), 'rb') as f:
+                        out[u] = ({SINGLE_NAME.encode(): f.read()}, SINGLE_NAME.encode())
+                except FileNotFoundError:
+                    out[u] = ({}, None)
+            return out
         for u, (user, _pw) in USERS.items():
             ent = self.w.config.set_cache.get(user)
             if ent is None:
@@ -788,8 +900,29 @@ class Exec:
                                   'Unknown') else ((c,) if obs['gowners'][c] is None else ())
         obs['owners'] = {k: self.probe_owner(k) for k in which}
         obs['glass'] = self.glass()
+        obs['stray'] = self.stray() if self.backend == 'maildir' else []
         obs['mark'] = mark
         return obs
+
+    def stray(self) -> list:
+        """maildir: files OTHER than <user>/dovecot.sieve that hold the bytes of one of
+        the scripts of this execution."""
+        base = self.w.base_dir
+        own = {os.path.join(base, user, 'dovecot.sieve') for user, _pw in USERS.values()}
+        sizes = {len(v) for v in self.conts.values() if len(v) >= 4}
+        found = []
+        for root, _dirs, files in os.walk(os.path.dirname(base)):
+            for fn in files:
+                path = os.path.join(root, fn)
+                try:
+                    if path in own or os.path.getsize(path) not in sizes:
+                        continue
+                    with open(path, 'rb') as f:
+                        if f.read() in self.conts.values():
+                            found.append(os.path.relpath(path, base))
+                except OSError:
+                    continue
+        return found
 
     # -- judging an observation against (r, post) ----------------------------
 
@@ -803,6 +936,10 @@ class Exec:
         prop = area in ('Gate', 'Map')
         out: list = []
         label = f'{cmd}({c}{"," if args else ""}{",".join(map(str, args))})'
+        if self.backend != 'dict':
+            label = f'{self.backend}: {label}'
+        if res.get('dev'):
+            label += f' [the model follows the deviation {res["dev"]} measured at calibration]'
         sent = _txt(b''.join(obs['sent']), 200)
         if obs['err'] == 'spinning':
             sig = 'EofAfterZeroLengthLiteralSpins' if obs.get('drop') == 'marker0' \
@@ -947,6 +1084,10 @@ class Exec:
                 out.append(Finding('violation', f'Isolation:{cmd}:auth',
                                    f'after {label} connection {k} is {got}, model {want}'))
         # 6. glass box (only if the wire agreed)
+        if not out and obs.get('stray'):
+            out.append(Finding('drift', f'Glass:StrayCopy:{cmd}',
+                               f'after {label} script bytes are found in {obs["stray"]!r} '
+                               f'(outside <user>/dovecot.sieve)'))
         if not out:
             for u, g in obs['glass'].items():
                 if g is None:
@@ -960,13 +1101,40 @@ class Exec:
         return out
 
 
-def run_steps(steps, seed, name_fam=None, cont_fam=None, enc='mixed', force_drop=None) -> dict:
+# what the named deviations of Sieve.tla (DevTags) mean on the wire, and the clause of
+# the property each contradicts (Sieve.tla DevClause; confirmed by TLC on every run)
+DEV_TEXT = {
+    'SinglePutOtherNameDropped':
+        'PUTSCRIPT of a name the single-script store cannot hold is answered OK and '
+        'nothing is stored: GETSCRIPT of that name says NO, LISTSCRIPTS does not list it '
+        '(clause: PUTSCRIPT then GETSCRIPT returns the same bytes)',
+    'SingleDeleteActive':
+        'DELETESCRIPT of the script LISTSCRIPTS marks ACTIVE is answered OK and the '
+        'script is gone (clause: the active script cannot be deleted)',
+    'SingleSetActiveMissing':
+        'SETACTIVE of a name that is not stored is answered OK; nothing is active '
+        'afterwards (clause: LISTSCRIPTS marks the active one / map of stored names)',
+    'SingleDeleteMissing':
+        'DELETESCRIPT of a name that is not stored is answered OK (clause: the store '
+        'is a map of the stored names)',
+}
+def dev_clause() -> dict:
+    """deviation -> the law of Sieve.tla it contradicts: the module's DevClause"""
+    text = open(os.path.join(tlc.SPEC_DIR, 'Sieve.tla')).read()
+    m = re.search(r'^DevClause == \[(.*?)\]', text, re.S | re.M)
+    if not m:
+        raise tlc.TLCError('Sieve.tla: no DevClause')
+    return dict(re.findall(r'(\w+)\s*\|->\s*"(\w+)"', m.group(1)))
+
+
+def run_steps(steps, seed, name_fam=None, cont_fam=None, enc='mixed', force_drop=None,
+              backend='dict') -> dict:
     """Replay abstract steps (each with the result and post-state TLC
     computed) on a fresh real server."""
-    ex = Exec(seed, name_fam, cont_fam, enc, force_drop)
+    ex = Exec(seed, name_fam, cont_fam, enc, force_drop, backend)
     res = {'n': 0, 'findings': [], 'fams': [ex.name_fam, ex.cont_fam, enc],
            'switch': None, 'trace': [], 'mut_ok': 0, 'refused_unauth': 0,
-           'cmds': {}}
+           'cmds': {}, 'devs': {}, 'backend': backend}
     try:
         if ex.boot:
             res['findings'].append(Finding('drift', 'Boot', '; '.join(ex.boot)))
@@ -979,6 +1147,8 @@ def run_steps(steps, seed, name_fam=None, cont_fam=None, enc='mixed', force_drop
                     if not ex.judge(st, obs, alt['res'], alt['post']):
                         res['switch'] = {'step': i, 'took': alt['res']['alt'],
                                          'planned': st['res']['alt']}
+                        if st['res'].get('dev'):
+                            res['switch']['planned_deviation'] = st['res']['dev']
                         fs = None
                         break
                 if fs is None:
@@ -996,7 +1166,15 @@ def run_steps(steps, seed, name_fam=None, cont_fam=None, enc='mixed', force_drop
                                   for c, s, r in ex.log[-14:]]
                     break
             res['n'] += 1
-            if cond == 'OK' and st['cmd'] in MUTATORS:
+            dev = st['res'].get('dev')
+            if dev and dev not in res['devs']:
+                # the server did what the deviation edge of the as-is model says
+                res['devs'][dev] = {
+                    'step': i,
+                    'what': f'{backend}: {st["cmd"]}({st["conn"]},{",".join(map(str, st["args"]))}) '
+                            f'sent {_txt(b"".join(obs["sent"]), 160)!r}, answered '
+                            f'{_txt(obs["raw"], 80)!r}; {DEV_TEXT.get(dev, dev)}'}
+            if cond == 'OK' and st['cmd'] in MUTATORS and not dev:
                 res['mut_ok'] += 1
             if st['pre'] == 'none' and st['cmd'] in SCRIPT_CMDS and cond in ('NO', 'BYE'):
                 res['refused_unauth'] += 1
@@ -1163,15 +1341,32 @@ def run_jobs(jobs: list) -> list:
 # --------------------------------------------------------------------------
 
 
-def calibrate() -> dict:
-    """Which of the alternatives the model allows does this server take?"""
-    ex = Exec(0, 'ascii', 'tiny', 'quoted')
+def calibrate(backend: str = 'dict') -> dict:
+    """Which of the alternatives the model allows does this server take?  On the
+    single-script store (maildir) also: which of the model's named deviations
+    (Sieve.tla DevTags) does it show?  The answer only selects the as-is model
+    the tours follow (Open); every execution is still compared step by step
+    with what TLC computed for that model, and every execution that walks a
+    deviation edge is reported under the deviation's name."""
+    ex = Exec(0, 'ascii', 'tiny', 'quoted', backend=backend)
     try:
         taken = {}
         _s, out = ex.issue('c1', 'Auth', ['u1', 'authz'])
         taken['authz'] = 'AuthzAsAuthcid' if out.startswith(b'OK') else 'AuthzRefused'
         if not out.startswith(b'OK'):
             ex.issue('c1', 'Auth', ['u1', 'good'])
+        if backend == 'maildir':
+            devs = []
+            for dev, prog in (
+                    ('SingleSetActiveMissing', [('SetActive', ['n1'])]),
+                    ('SingleDeleteMissing', [('Delete', ['n1'])]),
+                    ('SinglePutOtherNameDropped', [('Put', ['n2', 's1'])]),
+                    ('SingleDeleteActive', [('Put', ['n1', 's1']), ('Delete', ['n1'])])):
+                for cmd, args in prog:
+                    _s, out = ex.issue('c1', cmd, args)
+                if out.startswith(b'OK'):
+                    devs.append(dev)
+            taken['devs'] = sorted(devs)
         _s, out = ex.issue('c1', 'Put', ['n1', 'bad'])
         taken['putbad'] = 'PutBadStored' if out.startswith(b'OK') else 'PutBadRefused'
         _s, out = ex.issue('c1', 'Logout', [])
@@ -1200,6 +1395,20 @@ SCENARIOS = [
      'Drop(c3', 'Drop(c1', 'Get(c1,n2', 'Auth(c1,u1,good', 'List(c1', 'Logout(c1', 'Get(c1,n1',
      'Auth(c1,u1,good', 'Get(c1,n1'],
 ]
+# the single-script store (maildir) gets one more: both users keep a script under the
+# SAME (the only) name, other names are tried in between, the script is replaced,
+# removed and put again
+SCENARIOS_SINGLE = SCENARIOS + [
+    ['Auth(c1,u1,good', 'Auth(c2,u2,good', 'SetActive(c1,n1', 'List(c1', 'Delete(c1,n1',
+     'Put(c1,n2,s1', 'Get(c1,n2', 'List(c1', 'List(c2', 'Put(c1,n1,s1', 'List(c2',
+     'Get(c2,n1', 'Put(c2,n1,s2', 'Get(c1,n1', 'Get(c2,n1', 'Put(c1,n2,s2', 'Get(c1,n1',
+     'Get(c1,n2', 'Rename(c1,n1,n2', 'Rename(c1,n2,n1', 'List(c1', 'SetActive(c1,empty',
+     'List(c1', 'SetActive(c1,n2', 'SetActive(c1,n1', 'HaveSpace(c1,n2,small',
+     'Put(c1,n1,bad', 'Get(c1,n1', 'Delete(c1,n2', 'Delete(c1,n1', 'List(c1', 'Get(c1,n1',
+     'Get(c2,n1', 'List(c2', 'Put(c1,n1,s2', 'Delete(c2,n1', 'Get(c1,n1', 'Put(c3,n1,s1',
+     'List(c1', 'Unauth(c2', 'Get(c2,n1', 'Logout(c1', 'Get(c1,n1', 'Auth(c1,u1,good',
+     'List(c1', 'Get(c1,n1'],
+]
 
 
 def scenario_steps(graph, groups, prefixes, excluded) -> list:
@@ -1220,6 +1429,8 @@ def scenario_steps(graph, groups, prefixes, excluded) -> list:
 
 
 def _signature(r) -> str:
+    if r.get('backend', 'dict') != 'dict':
+        return digest([r['backend'], r['trace']])
     return digest(r['trace'])
 
 
@@ -1235,77 +1446,157 @@ def _absorb(run: Run, r: dict, meta: dict, stats: dict) -> None:
     stats['mut_ok'] += r['mut_ok']
     if r['switch']:
         stats['switches'].append({**meta, **r['switch']})
-    run.count_exec(_signature(r), nontrivial=r['mut_ok'] > 0 and r['n'] >= 3)
+    nontrivial = r['mut_ok'] > 0 and r['n'] >= 3
+    run.count_exec(_signature(r), nontrivial=nontrivial)
+    stats['executions'] = stats.get('executions', 0) + 1
+    if nontrivial:
+        stats.setdefault('nontrivial', set()).add(_signature(r))
+    backend = r.get('backend', 'dict')
+    where = '' if backend == 'dict' else f'{backend} '
+
+    def replay_of(upto, sig):
+        replay = {'check': 'C19', **meta, 'fams': r['fams'], 'upto': upto, 'finding': sig}
+        steps, seed, nf, cf, enc = meta['_job'][:5]
+        replay['exec_seed'] = seed
+        replay['force_drop'] = (list(meta['_job'][5:]) or [None])[0]
+        if backend != 'dict':
+            replay['backend'] = backend
+        replay['steps'] = steps[:(upto if upto is not None else len(steps)) + 1]
+        replay['wire_log'] = r.get('log')
+        replay.pop('_job', None)
+        return replay
+
     for f in r['findings']:
         if f['level'] == 'drift':
-            key = f['sig']
+            key = f['sig'] if backend == 'dict' else f'{backend}:{f["sig"]}'
             ent = stats['drift'].setdefault(key, {'sig': key, 'count': 0, 'first': f['what'],
                                                   'where': meta})
             ent['count'] += 1
             continue
-        replay = {'check': 'C19', **meta, 'fams': r['fams'], 'upto': f.get('step'),
-                  'finding': f['sig']}
-        steps, seed, nf, cf, enc = meta['_job'][:5]
-        replay['exec_seed'] = seed
-        replay['force_drop'] = (list(meta['_job'][5:]) or [None])[0]
-        replay['steps'] = steps[:f.get('step', len(steps)) + 1]
-        replay['wire_log'] = r.get('log')
-        replay.pop('_job', None)
         run.violation(f'[{f["sig"]}] {f["what"]} '
                       f'(names={r["fams"][0]}, scripts={r["fams"][1]}, strings={r["fams"][2]}, '
-                      f'{meta["stage"]} #{meta["index"]} step {f.get("step")})',
-                      replay, f['sig'])
+                      f'{where}{meta["stage"]} #{meta["index"]} step {f.get("step")})',
+                      replay_of(f.get('step'), f['sig']), f['sig'])
+    # an execution that walked a deviation edge of the as-is model: a violation under
+    # the deviation's name, excused only by an OPEN entry of known/C19.json with that id
+    # (the deviations exist in the single profile only, i.e. on this store only)
+    for dev, ent in sorted(r.get('devs', {}).items()):
+        stats['devs'][dev] = stats['devs'].get(dev, 0) + 1
+        run.violation(f'[{dev}] {ent["what"]} '
+                      f'(names={r["fams"][0]}, scripts={r["fams"][1]}, strings={r["fams"][2]}, '
+                      f'{where}{meta["stage"]} #{meta["index"]} step {ent["step"]})',
+                      replay_of(ent['step'], dev), dev)
 
 
-def main(tier: str) -> int:
-    run = Run('C19', tier)
-    t00 = time.time()
-    run.cov['rule'] = (
-        'executions = replays on the real ManageSieve server of (a) the paths of an edge '
-        'cover of the TLC state graph of Sieve.tla (small scope), (b) TLC -simulate '
-        'behaviours of the full scope, (c) fixed scenarios under every byte family; after '
-        'every step the response and a LISTSCRIPTS/GETSCRIPT probe of both users are '
-        'compared with what TLC computed.  non-trivial = at least three steps and at least '
-        'one successful PUTSCRIPT/SETACTIVE/DELETESCRIPT/RENAMESCRIPT; distinct = distinct '
-        'sequences of (command, arguments, observed condition)')
-    run.assumptions += [
-        'dict backend, no TLS configured (STARTTLS can only be refused), users without the '
-        'admin role, SASL PLAIN and LOGIN',
-        'script names are concretised to printable UTF-8 (no control characters, which '
-        'RFC 5804 forbids); scripts are at most 4096 octets (pymap refuses longer literals)',
-        'commands arrive one at a time on a connection (no pipelining), connections of '
-        'different users interleave at command granularity',
-    ]
-    quick = tier == 'quick'
+def _cfg_with(name: str, scratch: str, latitude=None, open_=None, only_property=None) -> str:
+    """A copy of spec/<name> with Latitude / Open replaced (and, for the clause
+    runs, one PROPERTY only)."""
+    text = open(os.path.join(tlc.SPEC_DIR, name)).read()
+    if latitude is not None:
+        lat = ', '.join(f'"{x}"' for x in sorted(latitude))
+        text, n = re.subn(r'Latitude = \{[^}]*\}', 'Latitude = {' + lat + '}', text)
+        if n != 1:
+            raise tlc.TLCError(f'{name}: no Latitude line')
+    if open_ is not None:
+        op = ', '.join(f'"{x}"' for x in sorted(open_))
+        text, n = re.subn(r'Open = \{[^}]*\}', 'Open = {' + op + '}', text)
+        if n != 1:
+            raise tlc.TLCError(f'{name}: no Open line')
+    if only_property is not None:
+        text = re.sub(r'^PROPERTY \w+\n', '', text, flags=re.M) + f'PROPERTY {only_property}\n'
+    tag = digest([name, latitude, open_, only_property])
+    path = os.path.join(scratch, f'{name[:-4]}_{tag}.cfg')
+    with open(path, 'w') as f:
+        f.write(text)
+    return path
 
-    # 1. model check (in the background) + state graph
-    def mc(cfg, workers):
-        r = tlc.run_tlc('Sieve.tla', cfg, workers=workers, timeout=3000)
-        r.output = r.output[-4000:]
-        return r
 
-    bg_mc = [('Sieve_small.cfg', Bg(mc, 'Sieve_small.cfg', 6))]
-    if not quick:
-        bg_mc.append(('Sieve_medium.cfg', Bg(mc, 'Sieve_medium.cfg', 6)))
-    graph_cfg = 'Sieve_small_graph.cfg' if quick else 'Sieve_medium_graph.cfg'
-    try:
-        graph, res_g = tlc.dump_graph('Sieve.tla', graph_cfg, workers=4)
-    except tlc.TLCError as exc:
-        run.machinery(str(exc))
-        return run.finish()
-    run.add_model(res_g, graph_cfg + ' (VIEW base)')
-    if not res_g.ok:
-        run.machinery(f'model check of {graph_cfg} failed: {res_g.violated or res_g.error}')
-        return run.finish()
-    run.notes['t_dump_s'] = round(time.time() - t00, 1)
+def _mc(cfg, workers):
+    r = tlc.run_tlc('Sieve.tla', cfg, workers=workers, timeout=3000)
+    r.output = r.output[-4000:]
+    return r
 
-    # 2. which alternatives does the server take; prune the others
-    try:
-        taken = calibrate()
-    except Exception as exc:
-        run.machinery(f'calibration failed: {exc!r}')
-        return run.finish()
-    run.notes['latitude_taken'] = taken
+
+def _dump(cfg, workers):
+    graph, r = tlc.dump_graph('Sieve.tla', cfg, workers=workers)
+    r.output = r.output[-4000:]
+    return graph, r
+
+
+def _state_key(post: dict) -> str:
+    return json.dumps(post, sort_keys=True)
+
+
+def _strict_index(workers: int = 2):
+    """(Background.)  What the PROPERTY asks for wherever the as-is model follows a
+    deviation: the state graph of the single profile with Open = {} over the full scope
+    (VIEW base; its states include those of the small and medium scopes), reduced to
+    the commands that can deviate.  -> ({(state, cmd, conn, args): [{res, post}]}, res)"""
+    graph, r = tlc.dump_graph('Sieve.tla', 'Sieve_single_full_graph.cfg', workers=workers)
+    r.output = r.output[-4000:]
+    idx: dict = {}
+    for src, outs in graph.edges.items():
+        key = _state_key(_post(graph.nodes[src]))
+        for label, dst in outs:
+            if not label.startswith(('Put(', 'SetActive(', 'Delete(')):
+                continue
+            cmd, conn, args, res = _parse_label(label)
+            idx.setdefault((key, cmd, conn, tuple(args)), []).append(
+                {'res': res, 'post': _post(graph.nodes[dst])})
+    return idx, r
+
+
+def attach_strict(steps: list, init_post: dict, strict: dict, excluded) -> None:
+    """Every step that follows a deviation also gets the outcome the property asks for
+    (computed by TLC, _strict_index) as an alternative: a server that gives that one
+    instead ends the execution there (a switch, as for latitude) - so a replay file of a
+    deviation stops reproducing, without a false alarm, once the defect is repaired."""
+    pre = init_post
+    for st in steps:
+        if st['res'].get('dev'):
+            alts = [a for a in strict.get((_state_key(pre), st['cmd'], st['conn'],
+                                           tuple(st['args'])), [])
+                    if a['res']['alt'] not in excluded and not a['res'].get('dev')]
+            st['alts'] = list(st.get('alts') or []) + alts
+        pre = st['post']
+
+
+def _known_override(kn, notes=None) -> None:
+    """VERIF_C19_KNOWN=<file> (experiments only, like VERIF_REPO): take the known
+    findings from that file instead of known/C19.json."""
+    path = os.environ.get('VERIF_C19_KNOWN')
+    if not path:
+        return
+    kn.open, kn.fixed = {}, {}
+    for e in json.load(open(path)).get('findings', []):
+        if e.get('property') == 'C19':
+            (kn.open if e.get('status') == 'open' else kn.fixed)[e['id']] = e
+    if notes is not None:
+        notes['known_findings_file'] = path
+
+
+def start_sim(run: Run, backend: str, quick: bool, taken: dict, sim_cfg: str, scratch: str,
+              seed0: int):
+    """TLC -simulate of the full scope with the measured latitude (and, on the single
+    store, the measured deviations), in the background.  -> (num, depth, [Bg])"""
+    if backend == 'dict':
+        num, depth, chunks = (160, 60, 1) if quick else (8000, 100, 8)
+    else:
+        num, depth, chunks = (64, 50, 1) if quick else (4000, 100, 4)
+    cfg = open(_cfg_with(sim_cfg, scratch, {taken['authz'], taken['putbad']},
+                         None if backend == 'dict' else taken.get('devs', []))).read()
+    return num, depth, [Bg(sim_steps, cfg, num // chunks, depth,
+                           run.seed * 100 + 1 + k + (seed0 and 50)) for k in range(chunks)]
+
+
+def tour(run: Run, backend: str, quick: bool, graph, taken: dict, notes: dict,
+         bg_mc: list, t00: float, seed0: int, scenarios: list, sim_cfg: str,
+         scratch: str, scope_text: str, sim=None, strict=None) -> bool:
+    """Stages 2-5 on one backend.  -> False: stop (machinery failure reported).
+    seed0 separates the seeds of the backends (0 for dict: the executions of
+    the dict backend are what they were before the maildir backend was added)."""
+    dict_b = backend == 'dict'
+    notes['latitude_taken'] = taken
     excluded = {'PutBadRefused', 'PutBadStored', 'AuthzRefused', 'AuthzAsAuthcid'} \
         - {taken['authz'], taken['putbad']}
     obs_notes = []
@@ -1317,7 +1608,7 @@ def main(tier: str) -> int:
     if taken['authz'] == 'AuthzAsAuthcid':
         obs_notes.append('SASL PLAIN with a foreign authorization identity logs in as the '
                          'authentication identity (authzid ignored)')
-    run.notes['observations'] = obs_notes
+    notes['observations'] = obs_notes
 
     groups: dict = {}
     pruned: dict = {}
@@ -1336,31 +1627,32 @@ def main(tier: str) -> int:
         for label, dst in path:
             reach.add((src, label))
             src = dst
-    run.notes['graph'] = {'nodes': len(graph.nodes), 'edges': graph.n_edges,
-                          'edges_after_latitude': len(reach), 'cover_paths': len(paths),
-                          'cover_steps': sum(len(p) for _i, p in paths)}
-    run.notes['t_cover_s'] = round(time.time() - t00, 1)
+    notes['graph'] = {'nodes': len(graph.nodes), 'edges': graph.n_edges,
+                      'edges_after_latitude': len(reach), 'cover_paths': len(paths),
+                      'cover_steps': sum(len(p) for _i, p in paths)}
+    notes['t_cover_s'] = round(time.time() - t00, 1)
 
     stats = {'steps': 0, 'cmds': {}, 'refused_unauth': 0, 'mut_ok': 0, 'switches': [],
-             'drift': {}}
+             'drift': {}, 'devs': {}}
+    tail = () if dict_b else (None, backend)
 
     # simulation of the full scope with the measured latitude: start TLC now
-    num, depth, chunks = (160, 60, 1) if quick else (8000, 100, 8)
-    cfg = open(os.path.join(tlc.SPEC_DIR, 'Sieve_sim.cfg')).read()
-    lat = ', '.join(f'"{x}"' for x in sorted({taken['authz'], taken['putbad']}))
-    cfg = re.sub(r'Latitude = \{[^}]*\}', 'Latitude = {' + lat + '}', cfg)
-    bg_sim = [Bg(sim_steps, cfg, num // chunks, depth, run.seed * 100 + 1 + k)
-              for k in range(chunks)]
+    # (unless it was started before)
+    num, depth, bg_sim = sim or start_sim(run, backend, quick, taken, sim_cfg, scratch, seed0)
 
     # 3. replay the edge cover
     jobs, metas = [], []
+    init_post = _post(graph.nodes[graph.inits[0]])
     for i, (init, path) in enumerate(paths):
         steps = steps_of_path(graph, init, path, groups)
-        job = (steps, run.seed * 1000003 + i, None, None, 'mixed')
+        if strict:
+            attach_strict(steps, _post(graph.nodes[init]), strict, excluded)
+        job = (steps, run.seed * 1000003 + seed0 + i, None, None, 'mixed') + tail
         jobs.append(job)
         metas.append({'stage': 'graph', 'index': i, '_job': job})
     results = run_jobs(jobs)
     covered = set()
+    v0 = len(run.violations)
     for (init, path), r, meta in zip(paths, results, metas):
         _absorb(run, r, meta, stats)
         if 'crash' in r:
@@ -1369,18 +1661,22 @@ def main(tier: str) -> int:
         for label, dst in path[:r['n']]:
             covered.add((src, label))
             src = dst
-    run.notes['graph']['edges_replayed'] = len(covered)
-    run.notes['graph']['steps_replayed'] = stats['steps']
-    run.cov['exhaustive'] = len(covered) == len(reach) and not run.violations
-    run.notes['exhaustive_scope'] = (
-        'Sieve.tla small scope: 3 connections (c1 -> u1 with names {n1,n2,""} and scripts '
-        '{s1,s2,bad}; c2 -> u2 with the colliding name n1; c3 never authenticated), every '
-        'command of the model at every one of the reachable store/auth states; every edge '
-        'replayed on the real server with randomly chosen (seeded) byte families')
-    run.notes['t_graph_replay_s'] = round(time.time() - t00, 1)
+    notes['graph']['edges_replayed'] = len(covered)
+    notes['graph']['steps_replayed'] = stats['steps']
+    exhaustive = len(covered) == len(reach) and len(run.violations) == v0
+    if dict_b:
+        run.cov['exhaustive'] = exhaustive and not run.violations
+    else:
+        run.cov['exhaustive'] = bool(run.cov['exhaustive']) and exhaustive
+        notes['exhaustive'] = len(covered) == len(reach)
+    notes['exhaustive_scope'] = scope_text
+    notes['t_graph_replay_s'] = round(time.time() - t00, 1)
     for r in results[:1] + results[len(results) // 2:len(results) // 2 + 1]:
         if 'crash' not in r:
-            run.sample({'stage': 'graph', 'fams': r['fams'], 'trace': r['trace'][:40]})
+            run.sample({'stage': 'graph', 'fams': r['fams'], 'trace': r['trace'][:40]}
+                       if dict_b else
+                       {'stage': 'graph', 'backend': backend, 'fams': r['fams'],
+                        'trace': r['trace'][:40]}, 3 if dict_b else 5)
 
     # 4. simulation of the full scope (TLC ran next to the graph replay)
     try:
@@ -1389,7 +1685,7 @@ def main(tier: str) -> int:
             run.add_model(res_mc, nm)
             if not res_mc.ok:
                 run.machinery(f'model check of {nm} failed: {res_mc.violated or res_mc.error}')
-                return run.finish()
+                return False
         sims, res_s, nbeh = [], None, 0
         for bg in bg_sim:
             st_lists, r1 = bg.result()
@@ -1405,38 +1701,46 @@ def main(tier: str) -> int:
                 res_s.error = res_s.error or r1.error
     except tlc.TLCError as exc:
         run.machinery(str(exc))
-        return run.finish()
-    run.add_model(res_s, f'Sieve_sim.cfg -simulate num={num} depth={depth}')
+        return False
+    run.add_model(res_s, f'{sim_cfg} -simulate num={num} depth={depth}')
     if not res_s.ok or nbeh < num:
         run.machinery(f'simulation failed ({nbeh}/{num} behaviours): '
                       f'{res_s.violated or res_s.error}')
-        return run.finish()
-    run.notes['t_tlc_joined_s'] = round(time.time() - t00, 1)
+        return False
+    notes['t_tlc_joined_s'] = round(time.time() - t00, 1)
     jobs, metas = [], []
     for i, steps in enumerate(sims):
-        job = (steps, run.seed * 1000003 + 500000 + i, None, None, 'mixed')
+        if strict:
+            attach_strict(steps, init_post, strict, excluded)
+        job = (steps, run.seed * 1000003 + seed0 + 500000 + i, None, None, 'mixed') + tail
         jobs.append(job)
         metas.append({'stage': 'simulate', 'index': i, '_job': job})
     before = stats['steps']
     results = run_jobs(jobs)
     for r, meta in zip(results, metas):
         _absorb(run, r, meta, stats)
-    run.notes['simulate'] = {'behaviours': nbeh, 'depth': depth,
-                             'steps_replayed': stats['steps'] - before}
+    notes['simulate'] = {'behaviours': nbeh, 'depth': depth,
+                         'steps_replayed': stats['steps'] - before}
     if results and 'crash' not in results[-1]:
         run.sample({'stage': 'simulate', 'fams': results[-1]['fams'],
-                    'trace': results[-1]['trace'][:40]})
-    run.notes['t_sim_replay_s'] = round(time.time() - t00, 1)
+                    'trace': results[-1]['trace'][:40]} if dict_b else
+                   {'stage': 'simulate', 'backend': backend, 'fams': results[-1]['fams'],
+                    'trace': results[-1]['trace'][:40]}, 3 if dict_b else 5)
+    notes['t_sim_replay_s'] = round(time.time() - t00, 1)
 
     # 5. byte-level sweep of fixed scenarios
     jobs, metas = [], []
     try:
-        scen = [scenario_steps(graph, groups, s, excluded) for s in SCENARIOS]
+        scen = [scenario_steps(graph, groups, s, excluded) for s in scenarios]
     except tlc.TLCError as exc:
         run.machinery(str(exc))
-        return run.finish()
+        return False
+    if strict:
+        for steps in scen:
+            attach_strict(steps, init_post, strict, excluded)
     rng = random.Random(run.seed)
-    allnames = sorted({**NAME_FAMILIES, **NAME_STRESS})
+    allnames = sorted({**NAME_FAMILIES, **NAME_STRESS} if dict_b else
+                      {**NAME_FAMILIES, **NAME_STRESS, **NAME_SINGLE})
     allconts = sorted({**CONTENT_FAMILIES, **CONTENT_STRESS})
     combos = [(nf, rng.choice(sorted(CONTENT_FAMILIES))) for nf in allnames] + \
              [(rng.choice(sorted(NAME_FAMILIES)), cf) for cf in allconts]
@@ -1447,8 +1751,8 @@ def main(tier: str) -> int:
         for nf, cf in combos:
             for enc in ('quoted', 'literal'):
                 # the zero-length-literal cut is always exercised here (rare elsewhere)
-                job = (steps, run.seed * 1000003 + 900000 + k, nf, cf, enc,
-                       'marker0' if enc == 'literal' else None)
+                job = (steps, run.seed * 1000003 + seed0 + 900000 + k, nf, cf, enc,
+                       'marker0' if enc == 'literal' else None) + tail[1:]
                 jobs.append(job)
                 metas.append({'stage': 'sweep', 'index': k, 'scenario': si, '_job': job})
                 k += 1
@@ -1456,19 +1760,190 @@ def main(tier: str) -> int:
     results = run_jobs(jobs)
     for r, meta in zip(results, metas):
         _absorb(run, r, meta, stats)
-    run.notes['sweep'] = {'executions': len(jobs), 'steps_replayed': stats['steps'] - before,
-                          'name_families': allnames, 'content_families': allconts}
-    run.notes['t_sweep_s'] = round(time.time() - t00, 1)
+    notes['sweep'] = {'executions': len(jobs), 'steps_replayed': stats['steps'] - before,
+                      'name_families': allnames, 'content_families': allconts}
+    notes['t_sweep_s'] = round(time.time() - t00, 1)
 
-    run.notes['replayed_commands'] = dict(sorted(stats['cmds'].items()))
-    run.notes['steps_replayed_total'] = stats['steps']
-    run.notes['refused_script_commands_before_auth'] = stats['refused_unauth']
-    run.notes['successful_mutations'] = stats['mut_ok']
+    notes['replayed_commands'] = dict(sorted(stats['cmds'].items()))
+    notes['steps_replayed_total'] = stats['steps']
+    notes['refused_script_commands_before_auth'] = stats['refused_unauth']
+    notes['successful_mutations'] = stats['mut_ok']
     if stats['switches']:
-        run.notes['latitude_switches'] = stats['switches'][:5]
+        notes['latitude_switches'] = stats['switches'][:5]
+    if not dict_b:
+        notes['deviations_walked'] = dict(sorted(stats['devs'].items()))
     for ent in sorted(stats['drift'].values(), key=lambda e: e['sig']):
         ent['where'] = {k: v for k, v in ent['where'].items() if k != '_job'}
         run.drift.append(ent)
+    run.notes.setdefault('per_backend', {})[backend] = {
+        'executions': stats.get('executions', 0),
+        'distinct_nontrivial': len(stats.get('nontrivial', ())),
+        'steps_replayed': stats['steps'],
+        'graph_edges_replayed': notes['graph']['edges_replayed'],
+        'simulated_behaviours': nbeh,
+        'sweep_executions': notes['sweep']['executions'],
+        'successful_mutations': stats['mut_ok'],
+        'refused_script_commands_before_auth': stats['refused_unauth'],
+    }
+    return True
+
+
+def main(tier: str) -> int:
+    run = Run('C19', tier)
+    _known_override(run.known, run.notes)
+    t00 = time.time()
+    run.cov['rule'] = (
+        'executions = replays on the real ManageSieve server of (a) the paths of an edge '
+        'cover of the TLC state graph of Sieve.tla (small scope), (b) TLC -simulate '
+        'behaviours of the full scope, (c) fixed scenarios under every byte family; after '
+        'every step the response and a LISTSCRIPTS/GETSCRIPT probe of both users are '
+        'compared with what TLC computed.  non-trivial = at least three steps and at least '
+        'one successful PUTSCRIPT/SETACTIVE/DELETESCRIPT/RENAMESCRIPT; distinct = distinct '
+        'sequences of (command, arguments, observed condition).  Each of (a) (b) (c) is run '
+        'on the dict backend (Profile "dict": any name can be stored) and on the maildir '
+        'backend (Profile "single": SingleFilterSet, one script per user, permanently called '
+        '"active", the file dovecot.sieve in the user\'s directory; every execution on its '
+        'own copy of a provisioned store); counts per backend: per_backend')
+    run.assumptions += [
+        'dict backend, no TLS configured (STARTTLS can only be refused), users without the '
+        'admin role, SASL PLAIN and LOGIN',
+        'script names are concretised to printable UTF-8 (no control characters, which '
+        'RFC 5804 forbids); scripts are at most 4096 octets (pymap refuses longer literals)',
+        'commands arrive one at a time on a connection (no pipelining), connections of '
+        'different users interleave at command granularity',
+        'maildir backend: layout "++", the store on a scratch directory (tmpfs when there is '
+        'one), users provisioned through Identity.set, their maildirs made by pymap at the '
+        'first login of the execution; the model\'s n1 is the name "active" there',
+    ]
+    quick = tier == 'quick'
+    backends = [b for b in (os.environ.get('VERIF_C19_BACKENDS') or 'dict,maildir').split(',')
+                if b in ('dict', 'maildir')]
+    if backends != ['dict', 'maildir']:
+        run.notes['backends_restricted_to'] = backends      # experiments only
+    scratch = tlc._scratch('c19cfgs')
+    try:
+        return _main(run, quick, backends, scratch, t00)
+    finally:
+        shutil.rmtree(scratch, ignore_errors=True)
+
+
+def _main(run: Run, quick: bool, backends: list, scratch: str, t00: float) -> int:
+    # 0. maildir (single-script store): which deviations of the model does the tree
+    #    show; TLC on the single profile in the background (small state spaces)
+    def md_start():
+        DEV_CLAUSE = dev_clause()
+        try:
+            md_template()
+            taken_md = calibrate('maildir')
+        except Exception as exc:
+            run.machinery(f'maildir calibration failed: {exc!r}')
+            return None
+        devs = taken_md['devs']
+        gname = 'Sieve_single_small_graph.cfg' if quick else 'Sieve_single_medium_graph.cfg'
+        md = {'taken': taken_md, 'gname': gname,
+              'graph': Bg(_dump, _cfg_with(gname, scratch, open_=devs), 2),
+              'mc': [('Sieve_single_small.cfg', Bg(_mc, 'Sieve_single_small.cfg', 2))],
+              'strict': Bg(_strict_index) if devs else None,
+              # TLC decides that each deviation the tree shows contradicts the property:
+              # the single profile with Open = {d} must violate the clause DevClause[d]
+              'clauses': [(d, Bg(_mc, _cfg_with('Sieve_single_small.cfg', scratch, open_=[d],
+                                                only_property=DEV_CLAUSE[d]), 1))
+                          for d in devs]}
+        if not quick:
+            md['mc'].append(('Sieve_single_medium.cfg', Bg(_mc, 'Sieve_single_medium.cfg', 2)))
+        if quick:
+            # (a small job: done long before the dict stages are; thorough starts it
+            # when the maildir stages begin)
+            md['sim'] = start_sim(run, 'maildir', quick, taken_md, 'Sieve_single_sim.cfg',
+                                  scratch, 250000)
+        return md
+
+    md = None
+    if backends == ['maildir']:
+        md = md_start()
+        if md is None:
+            return run.finish()
+
+    if 'dict' in backends:
+        # 1. model check (in the background) + state graph
+        bg_mc = [('Sieve_small.cfg', Bg(_mc, 'Sieve_small.cfg', 6))]
+        if not quick:
+            bg_mc.append(('Sieve_medium.cfg', Bg(_mc, 'Sieve_medium.cfg', 6)))
+        graph_cfg = 'Sieve_small_graph.cfg' if quick else 'Sieve_medium_graph.cfg'
+        try:
+            graph, res_g = tlc.dump_graph('Sieve.tla', graph_cfg, workers=4)
+        except tlc.TLCError as exc:
+            run.machinery(str(exc))
+            return run.finish()
+        run.add_model(res_g, graph_cfg + ' (VIEW base)')
+        if not res_g.ok:
+            run.machinery(f'model check of {graph_cfg} failed: {res_g.violated or res_g.error}')
+            return run.finish()
+        run.notes['t_dump_s'] = round(time.time() - t00, 1)
+
+        # 2. which alternatives does the server take; prune the others
+        try:
+            taken = calibrate()
+        except Exception as exc:
+            run.machinery(f'calibration failed: {exc!r}')
+            return run.finish()
+        if 'maildir' in backends:
+            # (now, not earlier: the graph dump above is waited for, these are not)
+            md = md_start()
+            if md is None:
+                return run.finish()
+        if not tour(run, 'dict', quick, graph, taken, run.notes, bg_mc, t00, 0, SCENARIOS,
+                    'Sieve_sim.cfg', scratch,
+                    'Sieve.tla small scope: 3 connections (c1 -> u1 with names {n1,n2,""} and '
+                    'scripts {s1,s2,bad}; c2 -> u2 with the colliding name n1; c3 never '
+                    'authenticated), every command of the model at every one of the reachable '
+                    'store/auth states; every edge replayed on the real server with randomly '
+                    'chosen (seeded) byte families'):
+            return run.finish()
+
+    if md is not None:
+        notes = run.notes.setdefault('maildir', {})
+        notes['deviations_measured'] = md['taken']['devs']
+        try:
+            graph, res_g = md['graph'].result()
+            run.add_model(res_g, f'{md["gname"]} (VIEW base, Open = measured deviations)')
+            if not res_g.ok:
+                run.machinery(f'model check of {md["gname"]} failed: '
+                              f'{res_g.violated or res_g.error}')
+                return run.finish()
+            clause = {}
+            DEV_CLAUSE = dev_clause()
+            for d, bg in md['clauses']:
+                r = bg.result()
+                run.add_model(r, f'Sieve_single_small.cfg Open={{{d}}} PROPERTY {DEV_CLAUSE[d]} '
+                                 f'(violation expected)')
+                run.notes['tlc_runs'][-1]['ok'] = r.violated == [DEV_CLAUSE[d]]
+                if r.violated != [DEV_CLAUSE[d]]:
+                    run.machinery(f'the single profile with the deviation {d} switched on does '
+                                  f'not violate {DEV_CLAUSE[d]}: {r.violated or r.error}')
+                    return run.finish()
+                clause[d] = DEV_CLAUSE[d]
+            notes['deviation_violates_clause_by_tlc'] = clause
+            strict = None
+            if md['strict'] is not None:
+                strict, r = md['strict'].result()
+                run.add_model(r, 'Sieve_single_full_graph.cfg (VIEW base, Open = {}: the '
+                                 'outcome the property asks for where a deviation is followed)')
+                if not r.ok:
+                    run.machinery(f'Sieve_single_full_graph.cfg failed: {r.violated or r.error}')
+                    return run.finish()
+        except tlc.TLCError as exc:
+            run.machinery(str(exc))
+            return run.finish()
+        if not tour(run, 'maildir', quick, graph, md['taken'], notes, md['mc'], t00, 250000,
+                    # (quick: the scenario of the laws and the one of the single store)
+                    SCENARIOS_SINGLE[::2] if quick else SCENARIOS_SINGLE,
+                    'Sieve_single_sim.cfg', scratch, sim=md.get('sim'), strict=strict, scope_text=
+                    'Sieve.tla single profile, small scope (as for dict; n1 = "active", the one '
+                    'name the store holds, used by BOTH users; n2 = any other name), as-is '
+                    'model = the property\'s outcomes with the measured deviations switched on: '
+                    'every edge replayed on the real server over the maildir backend'):
+            return run.finish()
     return run.finish()
 
 
@@ -1476,15 +1951,29 @@ def replay(path: str) -> int:
     data = json.load(open(path))
     rp = data['replay']
     nf, cf, enc = rp['fams']
-    r = run_steps(rp['steps'], rp['exec_seed'], nf, cf, enc, rp.get('force_drop'))
+    backend = rp.get('backend', 'dict')
+    if backend == 'maildir':
+        md_template()
+    r = run_steps(rp['steps'], rp['exec_seed'], nf, cf, enc, rp.get('force_drop'), backend)
     print(f'replayed {r["n"]} steps of {len(rp["steps"])} '
-          f'(names={nf}, scripts={cf}, strings={enc})')
+          f'(backend={backend}, names={nf}, scripts={cf}, strings={enc})')
     for f in r['findings']:
         print(f'  {f["level"].upper()} [{f["sig"]}] step {f.get("step")}: {f["what"]}')
+    for dev, ent in sorted(r['devs'].items()):
+        print(f'  DEVIATION [{dev}] step {ent["step"]}: {ent["what"]}')
+    if r.get('switch'):
+        sw = r['switch']
+        print(f'  step {sw["step"]}: the server gives another outcome the model allows '
+              f'(planned: {sw.get("planned_deviation") or sw["planned"]!r}); replay ends here')
     for c, s, o in r.get('log') or []:
         print(f'    {c} C: {s!r}\n    {c} S: {o!r}')
-    hit = [f for f in r['findings'] if f['level'] == 'violation']
-    if any(f['sig'] == data.get('signature') for f in hit):
+    hit = [f['sig'] for f in r['findings'] if f['level'] == 'violation'] + sorted(r['devs'])
+    from ..common import Known
+    known = Known('C19')
+    _known_override(known)
+    left = [s for s in hit if not known.excuses(s)]
+    known.print_seen()
+    if data.get('signature') in left:
         print(f'VIOLATION property=C19 replay={path}')
         return 1
-    return 1 if hit else 0
+    return 1 if left else 0
